@@ -41,7 +41,7 @@ def r1_own_response(chk: Check) -> None:
         fn = P.func(f"{CHECKS}:{name}")
         tests = [t for t in (n_.test for n_ in walk_body(fn.node) if isinstance(n_, ast.If))]
         for t in tests:
-            cj = conjuncts(strip_not(t)[0]) if isinstance(strip_not(t)[0], ast.BoolOp) else conjuncts(t)
+            cj = conjuncts_nnf(t)[0]
             for method in ("delete", "post"):
                 who = next((c_ for c_ in (_method_test(c, method) for c in cj) if c_ is not None), None)
                 rng = next((r for r in (_status_range(c) for c in cj) if r is not None), None)
@@ -172,11 +172,10 @@ def r3_accusation_guards(chk: Check) -> None:
         chk.violation("C18.R3", era, "only a 4xx answer is judged", "the status of the judged response is never tested: every answer (2xx included) of a request that follows a POST is reported as 'resource not available'", era.loc())
     else:
         chk.undecided("C18.R3", era, "only a 4xx answer is judged", "status-range test on the judged response not recognised", era.loc())
-    par = [(tid, e) for tid, e in guard_tests(g, lambda e: any(_method_test(c, "post") is not None for c in conjuncts(strip_not(e)[0])))]
+    par = [(tid, e) for tid, e in guard_tests(g, lambda e: any(_method_test(c, "post") is not None for c in conjuncts_nnf(e)[0]))]
     if par:
         tid, e = par[0]
-        inner, neg = strip_not(e)
-        cj = conjuncts(inner)
+        cj, neg = conjuncts_nnf(e)
         has_prefix = any(isinstance(c, ast.Call) and last_attr(c) == "_is_prefix_operation" for c in cj)
         has_ok = any(_status_range(c) is not None for c in cj)
         lbl = "false" if neg else "true"
